@@ -182,7 +182,8 @@ func (n *groupNode) Next() (bool, error) {
 					}
 
 					// We must hide all child documents after the offset plus limit
-					for i := childSelect.Limit.Limit + childSelect.Limit.Offset; i < l; i++ {
+					// (a limit of 0 means that there is no limit, as in limitNode)
+					for i := childSelect.Limit.Limit + childSelect.Limit.Offset; childSelect.Limit.Limit != 0 && i < l; i++ {
 						childDocs[i].Hidden = true
 
 						n.execInfo.hiddenAfterLimit++
